@@ -134,6 +134,9 @@ func c15DefaultsOne(c *core.Ctx, dir string, k c15DefaultsCase) {
 }
 
 func c15DefaultsRun(c *core.Ctx) {
+	if c15Skip(c, "defaults") {
+		return
+	}
 	dir := core.Scratch("c15defaults")
 	calls := c15DefaultCalls()
 	var idx int64
